@@ -10,6 +10,9 @@
 //!   X                  kill -9, restart on the same directories
 //!   XM                 kill -9 INSIDE the segment write of the head job (directory created, files
 //!                      incomplete), restart; nothing happens unless a job is parked at its start
+//!   FF                 the head job's flush FAILS: a regular file sits where its segment directory
+//!                      would be created; the job ends, its passive buffer is retained. Nothing
+//!                      happens unless a job is parked at its start and that path is free
 //!   D                  clean shutdown (flush all, stop), restart
 //!   C                  one compaction round (unparked)
 //!   LS                 durable listing: WAL files with line counts, segment directories
@@ -27,6 +30,7 @@ pub enum Op {
     R,
     X,
     Xm,
+    Ff,
     D,
     C,
     Ls,
@@ -42,6 +46,7 @@ impl Op {
             Op::R => "R".into(),
             Op::X => "X".into(),
             Op::Xm => "XM".into(),
+            Op::Ff => "FF".into(),
             Op::D => "D".into(),
             Op::C => "C".into(),
             Op::Ls => "LS".into(),
@@ -81,6 +86,9 @@ pub struct Exec {
     /// reads are not compared from then on
     pub poisoned: bool,
     xm_count: u64,
+    /// level-0 id the first rotation of this process lifetime gets (highest level-0 directory + 1)
+    l0_base: u64,
+    pub failed_flushes: u64,
     /// several event types and at least one compaction round so far: from the second round on the
     /// planner's hash-map order decides which labels are chunked together, so COUNT and the number
     /// of directories are under-determined; reads print the selection only, listings the WAL only
@@ -101,7 +109,7 @@ impl Exec {
             assert!(r.map(|r| r.ok()).unwrap_or(false), "DEFINE failed");
         }
         arm_all(&mut s);
-        Exec { s, ntypes, stores_this_life: 0, log: vec![], last_real_read: String::new(), last_read_racy: false, seen_labels: Default::default(), cur_labels: Default::default(), tainted: false, orphaned: vec![], poisoned: false, xm_count: 0, loose: false }
+        Exec { s, ntypes, stores_this_life: 0, log: vec![], last_real_read: String::new(), last_read_racy: false, seen_labels: Default::default(), cur_labels: Default::default(), tainted: false, orphaned: vec![], poisoned: false, xm_count: 0, l0_base: 0, failed_flushes: 0, loose: false }
     }
 
     fn hits(&mut self, p: &str) -> u64 {
@@ -213,6 +221,35 @@ impl Exec {
         self.tainted = false;
         self.cur_labels = self.dir_labels();
         self.seen_labels = self.cur_labels.clone();
+        // `ShardContext::new` seeds the level-0 counter from the directory listing
+        self.l0_base = self.cur_labels.iter().filter_map(|l| l.parse::<u64>().ok()).filter(|n| *n < 10_000).max().map(|m| m + 1).unwrap_or(0);
+    }
+    /// Let the head job's flush fail: a regular file sits where `create_dir_all` would create the
+    /// segment directory. Every job of this lifetime consumed one level-0 id, in order, so the head
+    /// job's id is the lifetime's first id plus the number of finished jobs.
+    fn fail_head_flush(&mut self) {
+        self.wait_wal_drained();
+        if self.where_parked() != Some(0) {
+            return;
+        }
+        let done_before = self.hits("flush.task_done");
+        let path = self.s.shard_data_dir(0).join(format!("{:05}", self.l0_base + done_before));
+        if path.exists() {
+            return;
+        }
+        std::fs::write(&path, b"").expect("blocker file");
+        self.s.ctl(json!({"ctl": "pass_one", "point": POINTS[0]}));
+        let t0 = std::time::Instant::now();
+        while self.hits("flush.task_done") <= done_before {
+            if t0.elapsed().as_secs() > 20 {
+                panic!("failing flush did not end");
+            }
+            std::thread::sleep(std::time::Duration::from_millis(2));
+        }
+        assert!(path.is_file(), "the blocked flush created its directory after all");
+        std::fs::remove_file(&path).expect("remove blocker file");
+        self.failed_flushes += 1;
+        let _ = self.where_parked();
     }
 
     fn dir_labels(&self) -> std::collections::BTreeSet<String> {
@@ -335,6 +372,10 @@ impl Exec {
                 if self.crash_in_write(point) && no_index {
                     self.poisoned = true;
                 }
+                None
+            }
+            Op::Ff => {
+                self.fail_head_flush();
                 None
             }
             Op::X => {
